@@ -48,7 +48,8 @@ func genStringCmd(g *lsGen) {
 		g.try(bs("set", k, g.value()))
 	case 3, 4:
 		a := bs("set", k, g.value())
-		opts := [][]string{{"nx"}, {"xx"}, {"get"}, {"xx", "get"}, {"keepttl"}, {"NX"}, {"Get"}, {"nx", "xx"}}
+		opts := [][]string{{"nx"}, {"xx"}, {"get"}, {"xx", "get"}, {"nx", "get"}, {"get", "nx"}, {"keepttl"}, {"NX"}, {"Get"}, {"nx", "xx"},
+			{"keepttl", "get"}, {"xx", "keepttl"}, {"nx", "keepttl", "get"}}
 		for _, o := range pick(r, opts) {
 			a = append(a, B(o))
 		}
